@@ -65,20 +65,38 @@ func RunC16(c *Ctx, r *Report) {
 		return
 	}
 	li := loops[0]
-	r.Check(li.body[hm.Block()], rule, "a fresh HMAC per round", c.InstrPos(hm), "hmac.New is inside the round loop", "the HMAC object is created outside the loop: rounds would continue one MAC computation")
+	freshPerRound := li.body[hm.Block()]
+	fdetail := "hmac.New is inside the round loop"
+	if !freshPerRound {
+		// one object keyed once, brought back to its keyed state by Reset before each round's Write
+		var rst, wr *ssa.Call
+		for _, ref := range *hm.Referrers() {
+			if call, ok := ref.(*ssa.Call); ok && call.Call.IsInvoke() && call.Call.Value == ssa.Value(hm) && li.body[call.Block()] {
+				switch call.Call.Method.Name() {
+				case "Reset":
+					rst = call
+				case "Write":
+					wr = call
+				}
+			}
+		}
+		if rst != nil && wr != nil && dominatesInstr(rst, wr) {
+			freshPerRound = true
+			fdetail = "one HMAC keyed before the loop, Reset before the Write of every round"
+		}
+	}
+	r.Check(freshPerRound, rule, "a fresh HMAC per round", c.InstrPos(hm), fdetail, "the HMAC object is created outside the loop and not Reset per round: rounds would continue one MAC computation")
 	// hash
 	g, _ := hm.Call.Args[0].(*ssa.Function)
 	r.Check(g != nil && g.String() == "crypto/sha256.New", rule, "hash is SHA-256", c.InstrPos(hm), "hmac.New(sha256.New, key)", "the hash constructor is not crypto/sha256.New")
 	// key = IK' | CK'
-	okKey, dk := false, "key is not append(append(empty, ikPrime...), ckPrime...)"
-	if a2 := isAppendCall(hm.Call.Args[1]); a2 != nil && a2.Call.Args[1] == ssa.Value(ck) {
-		if a1 := isAppendCall(a2.Call.Args[0]); a1 != nil && a1.Call.Args[1] == ssa.Value(ik) {
-			if freshRoot(a1.Call.Args[0]) {
-				if l := f.SliceLen(a1.Call.Args[0]); l.isConst() && l.C == 0 {
-					okKey = true
-					dk = "key = IK' | CK'"
-				}
-			}
+	okKey, dk := false, "key is not IK' | CK'"
+	if parts, ok := c.concatOf(f, hm.Call.Args[1], hm, 0); ok {
+		if sameParts(parts, []cpart{{Kind: "slice", Val: ik}, {Kind: "slice", Val: ck}}) {
+			okKey = true
+			dk = "key = IK' | CK'"
+		} else {
+			dk = "key is " + partsString(f, dropEmpty(parts)) + ", expected IK' | CK'"
 		}
 	}
 	r.Check(okKey, rule, "key = IK'|CK'", c.InstrPos(hm), dk, dk)
@@ -161,72 +179,35 @@ func RunC16(c *Ctx, r *Report) {
 	r.Check(emptyInit(prevPhi) && emptyInit(mkPhi), rule, "T(0) is empty and MK starts empty", c.InstrPos(prevPhi), "prev and MK are initialised to empty slices; prev = Sum(nil), MK = MK | Sum(nil) each round", "prev or MK does not start empty")
 	// data = prev | S | byte(i+1)
 	okData, dd := false, "written data is not prev | sBase | byte(i+1)"
-	if ap := isAppendCall(write.Call.Args[0]); ap != nil {
-		s0, sw := ap.Call.Args[0], ap.Call.Args[1]
-		// s0 = make(len(prev)) with copy(s0, prev)
-		okPrev := false
-		if mk, ok := s0.(*ssa.MakeSlice); ok && f.LFOf(mk.Len).key() == f.SliceLen(prevPhi).key() {
-			for _, cp := range copiesInto(mk) {
-				if cp.Call.Args[1] == ssa.Value(prevPhi) && dominatesInstr(cp, ap) {
-					okPrev = true
-				}
-			}
-		}
-		// sw = make(len(sBase)+1); copy(sw, sBase); sw[len(sBase)] = byte(i+1)
-		okS := false
-		if mk, ok := sw.(*ssa.MakeSlice); ok {
-			for _, cp := range copiesInto(mk) {
-				sBase := cp.Call.Args[1]
-				if !dominatesInstr(cp, ap) {
-					continue
-				}
-				if f.LFOf(mk.Len).key() != f.SliceLen(sBase).add(konst(1), 1).key() {
-					continue
-				}
-				// sBase = []byte("EAP-AKA'" + identity)
-				cv, ok := sBase.(*ssa.Convert)
-				if !ok {
-					continue
-				}
-				cat, ok := cv.X.(*ssa.BinOp)
-				if !ok || cat.Op != token.ADD || cat.Y != ssa.Value(id) {
-					continue
-				}
-				k, ok := cat.X.(*ssa.Const)
-				if !ok || k.Value == nil || k.Value.Kind() != constant.String || constant.StringVal(k.Value) != "EAP-AKA'" {
-					dd = "S does not start with the constant \"EAP-AKA'\""
-					continue
-				}
-				// the counter octet
-				for _, ref := range *mk.Referrers() {
-					ia, ok := ref.(*ssa.IndexAddr)
-					if !ok || f.LFOf(ia.Index).key() != f.SliceLen(sBase).key() {
-						continue
-					}
-					for _, r2 := range *ia.Referrers() {
-						st, ok := r2.(*ssa.Store)
-						if !ok || !dominatesInstr(st, ap) {
-							continue
-						}
-						v := st.Val
-						if c2, ok := v.(*ssa.Convert); ok {
-							v = c2.X
-						}
-						if b, ok := v.(*ssa.BinOp); ok && b.Op == token.ADD && b.X == ssa.Value(iPhi) {
-							if k, ok := b.Y.(*ssa.Const); ok {
-								if one, _ := constInt64(k.Value); one == 1 {
-									okS = true
-								}
-							}
-						}
+	if parts, ok := c.concatOf(f, write.Call.Args[0], write, 0); ok {
+		parts = dropEmpty(parts)
+		dd = "written data is " + partsString(f, parts) + ", expected T(n-1) | \"EAP-AKA'\" | Identity | byte(n)"
+		if len(parts) == 3 && parts[0].Kind == "slice" && parts[0].Val == ssa.Value(prevPhi) && parts[1].Kind == "slice" && parts[2].Kind == "byte" {
+			okS := false
+			// S = []byte("EAP-AKA'" + identity)
+			if cv, ok := parts[1].Val.(*ssa.Convert); ok {
+				if cat, ok := cv.X.(*ssa.BinOp); ok && cat.Op == token.ADD && cat.Y == ssa.Value(id) {
+					if k, ok := cat.X.(*ssa.Const); ok && k.Value != nil && k.Value.Kind() == constant.String && constant.StringVal(k.Value) == "EAP-AKA'" {
+						okS = true
+					} else {
+						dd = "S does not start with the constant \"EAP-AKA'\""
 					}
 				}
 			}
-		}
-		if okPrev && okS {
-			okData = true
-			dd = "data = T(n-1) | \"EAP-AKA'\" | Identity | byte(n)"
-		} else if !okPrev {
+			// the counter octet byte(i+1)
+			okN := false
+			if b, ok := unwrapByteConv(parts[2].Val).(*ssa.BinOp); ok && b.Op == token.ADD && b.X == ssa.Value(iPhi) {
+				if k, ok := b.Y.(*ssa.Const); ok {
+					if one, _ := constInt64(k.Value); one == 1 {
+						okN = true
+					}
+				}
+			}
+			if okS && okN {
+				okData = true
+				dd = "data = T(n-1) | \"EAP-AKA'\" | Identity | byte(n)"
+			}
+		} else if len(parts) > 0 && !(parts[0].Kind == "slice" && parts[0].Val == ssa.Value(prevPhi)) {
 			dd = "the data does not start with the previous round's output"
 		}
 	}
